@@ -165,10 +165,19 @@ func hostileTxs(rng *rand.Rand, hr *HistRun, st *MState, h int64, n int) []hosti
 				tx.Payload = &rctypes.TrxPayloadWithdraw{ReqAmt: new(uint256.Int).SetAllOne()}
 			case 4:
 				tx.Type = rctypes.TRX_CONTRACT
-				d := make([]byte, []int{0, 1, 1 << 20}[rng.Intn(3)])
+				d := make([]byte, []int{0, 1, 31, 32, 63, 64, 65, 96, 127, 128, 129, 300, 1 << 20}[rng.Intn(13)])
 				rng.Read(d)
 				tx.Gas = 500000
 				tx.Payload = &rctypes.TrxPayloadContract{Data: d}
+				if rng.Intn(2) == 0 {
+					// straight at a precompiled contract (addresses 1..9), any input length
+					to := make([]byte, 20)
+					to[19] = byte(1 + rng.Intn(9))
+					tx.To = to
+					if len(d) > 400 {
+						tx.Payload = &rctypes.TrxPayloadContract{Data: d[:rng.Intn(200)]}
+					}
+				}
 			default:
 				tx.Type = rctypes.TRX_SETDOC
 				tx.Payload = &rctypes.TrxPayloadSetDoc{Name: strings.Repeat("n", rng.Intn(5000)), URL: strings.Repeat("u", rng.Intn(5000))}
